@@ -35,7 +35,8 @@ Inductive case :=
        (g2 : option G)                       (* what DeserializeGraph built; None = error / panic *)
        (absids2 : list str)                  (* AbsID() of root :: Objects of the deserialized graph *)
        (hyp_json : bool)                     (* Convert round trip is the identity on every payload / ID *)
-       (expect_distinct : bool)              (* the graph comes from the real pipeline (not hand-made) *)
+       (expect_distinct : bool)              (* the graph comes from the real pipeline (not hand-made): WF and
+                                                distinct AbsIDs are then expected (codes 3, 4) *)
        (cmp_ok : bool)                       (* CompareSerializedGraph(g, g2) == nil *)
        (svg : option (N * N)).               (* digest of SVG: in-process, through the plugin protocol *)
 
@@ -126,7 +127,7 @@ Definition check_case (c : case) : list N :=
              end) 1
     ++ flag (match g2 with None => true | Some i => absids_match i absids2 end) 1
     ++ flag hyp_json 2
-    ++ flag (wfb g) 3
+    ++ flag (implb expect_distinct (wfb g)) 3
     ++ flag (implb expect_distinct (distinctb g)) 4
     ++ (if wfb g && distinctb g
         then match g2 with None => [20] | Some i => clause_codes g i cmp_ok end
